@@ -17,6 +17,10 @@
 //! Oracle: (1) a reference reader with conventional precedence (independent of the parser under test) gives
 //! the same function (values at 4 points); (2) folding keeps every finite value; (3) the displayed text parses
 //! again to the same function; (4) no panic.
+//!
+//! For `str` requests the reference reader starts from the SOURCE TEXT: the harness's own tokeniser (`ref_lex`) names
+//! the words - a run of letters spelling a function / constant in any case is that name, every other letter is the
+//! variable of exactly that letter (`XY` = X times Y) - and variables are bound case-sensitively (X and x differ).
 use crate::util::*;
 use spindalis_core::polynomials::advanced::verif_hooks as hk;
 use spindalis_core::polynomials::advanced::{Constants, Expr, Functions, Operators, Token};
@@ -550,6 +554,98 @@ fn reading(tokens: &[Token]) -> Reading {
     }
 }
 
+// ------------------------------------------------------------------ reference tokeniser of source text
+//
+// The words of a source text as the statement's vocabulary names them (written from the documented reading, not from the
+// lexer under test): a number is a run of digits with at most one point; a run of ASCII letters that spells a function or
+// a constant name IN ANY CASE is that name (`PI`, `Sin`, `tAU`); in every other run each letter stands for itself - `e` and
+// `E` for Euler's constant, every other letter for the single-letter variable OF EXACTLY THAT LETTER: `XY` is X times Y
+// and `xY` is x times Y, never x times y.  `π τ ϕ` are the constants as `Display` prints them.  Blanks (U+0020) separate
+// nothing; a blank BETWEEN two letters or two digits would glue two words into one when removed - the reading of such a
+// text is not decided here (`None`), nor that of a text with any other character or a malformed number.
+fn ref_lex(text: &str) -> Option<Vec<Token>> {
+    // characters without the blanks; glued[i] = a blank was removed directly in front of character i
+    let mut cs: Vec<char> = Vec::new();
+    let mut glued: Vec<bool> = Vec::new();
+    let mut blank = false;
+    for c in text.chars() {
+        if c == ' ' {
+            blank = true;
+        } else {
+            cs.push(c);
+            glued.push(blank);
+            blank = false;
+        }
+    }
+    let mut out = Vec::new();
+    let mut i = 0;
+    while i < cs.len() {
+        let c = cs[i];
+        if c.is_ascii_digit() || c == '.' {
+            let st = i;
+            let (mut dots, mut digits) = (0, 0);
+            while i < cs.len() && (cs[i].is_ascii_digit() || cs[i] == '.') {
+                if i > st && glued[i] {
+                    return None;
+                }
+                if cs[i] == '.' {
+                    dots += 1;
+                } else {
+                    digits += 1;
+                }
+                i += 1;
+            }
+            if dots > 1 || digits == 0 {
+                return None;
+            }
+            let word: String = cs[st..i].iter().collect();
+            out.push(Token::Number(word.parse::<f64>().ok()?));
+        } else if c.is_ascii_alphabetic() {
+            let st = i;
+            while i < cs.len() && cs[i].is_ascii_alphabetic() {
+                if i > st && glued[i] {
+                    return None;
+                }
+                i += 1;
+            }
+            let word: String = cs[st..i].iter().collect();
+            let lower = word.to_ascii_lowercase();
+            match lower.as_str() {
+                "sin" | "cos" | "tan" | "cot" | "log" | "ln" => out.push(Token::Function(fn_of(&lower))),
+                "pi" | "e" | "tau" | "phi" => out.push(Token::Constant(const_of(&lower))),
+                _ => {
+                    for l in word.chars() {
+                        if l == 'e' || l == 'E' {
+                            out.push(Token::Constant(Constants::E));
+                        } else {
+                            out.push(Token::Variable(l.to_string()));
+                        }
+                    }
+                }
+            }
+        } else {
+            out.push(match c {
+                'π' => Token::Constant(Constants::Pi),
+                'τ' => Token::Constant(Constants::Tau),
+                'ϕ' => Token::Constant(Constants::Phi),
+                '(' => Token::LParen,
+                ')' => Token::RParen,
+                '+' => Token::Operator(Operators::Add),
+                '-' => Token::Operator(Operators::Sub),
+                '*' => Token::Operator(Operators::Mul),
+                '/' => Token::Operator(Operators::Div),
+                '^' => Token::Operator(Operators::Caret),
+                '!' => Token::Operator(Operators::Fac),
+                '%' => Token::Operator(Operators::Rem),
+                '·' => Token::Operator(Operators::CDot),
+                _ => return None,
+            });
+            i += 1;
+        }
+    }
+    Some(out)
+}
+
 fn close(a: f64, b: f64, big: f64) -> bool {
     if !b.is_finite() || big > 1e100 {
         return true;
@@ -557,18 +653,23 @@ fn close(a: f64, b: f64, big: f64) -> bool {
     a.is_finite() && (a - b).abs() <= 1e-9 * big.max(1.0)
 }
 
-/// the property's oracle on one accepted token sequence
-fn judge(tokens: &[Token], p: &Piped, intended: Option<&R>) -> Result<(), String> {
+/// the property's oracle on one accepted token sequence.  `source` = the words of the SOURCE TEXT as the harness's own
+/// reference tokeniser reads them (`ref_lex`): when present, the conventional reading is taken from them and not from what
+/// the lexer under test made of the text, so that a lexer that renames, drops or merges a word is seen by the oracle.
+/// Variables are bound CASE-SENSITIVELY (`X` and `x` are different variables with different values).
+fn judge(tokens: &[Token], p: &Piped, intended: Option<&R>, source: Option<&[Token]>) -> Result<(), String> {
     if let Some(d) = &p.drift {
         return Err(format!("harness: {d}"));
     }
     // (1) conventional reading
-    let reference = match intended {
-        Some(r) => Reading::Tree(r.clone()),
-        None => reading(tokens),
+    let reference = match (intended, source) {
+        (Some(r), _) => Reading::Tree(r.clone()),
+        (None, Some(src)) => reading(src),
+        (None, None) => reading(tokens),
     };
+    let of_what = if intended.is_none() && source.is_some() { " of the source text" } else { "" };
     match &reference {
-        Reading::None => return Err("accepted a token sequence that has no conventional reading".into()),
+        Reading::None => return Err(format!("accepted a token sequence that has no conventional reading{of_what}")),
         Reading::Ambiguous => {}
         Reading::Tree(r) => {
             for k in 0..4 {
@@ -576,7 +677,7 @@ fn judge(tokens: &[Token], p: &Piped, intended: Option<&R>) -> Result<(), String
                 let want = reval(r, k, &mut big);
                 let got = eval(&p.unfolded, k, &mut big);
                 if !close(got, want, big) && !explained(eval_e(&p.unfolded, k), reval_e(r, k)) {
-                    return Err(format!("parsed tree gives {got:?} at point {k}, the conventional reading gives {want:?}"));
+                    return Err(format!("parsed tree gives {got:?} at point {k}, the conventional reading{of_what} gives {want:?}"));
                 }
             }
         }
@@ -621,13 +722,13 @@ fn read_toks(t: &mut Toks) -> Vec<Token> {
     (0..n).map(|_| tok_of_word(t.tok())).collect()
 }
 
-fn run_tokens(tokens: &[Token], intended: Option<&R>) -> (String, Result<(), String>) {
+fn run_tokens(tokens: &[Token], intended: Option<&R>, source: Option<&[Token]>) -> (String, Result<(), String>) {
     match catch(|| pipe(tokens)) {
         None => ("panic".into(), Err("the parser pipeline panicked".into())),
         Some(r) => {
             let shown = show_piped(&r);
             let verdict = match &r {
-                Ok(p) => judge(tokens, p, intended),
+                Ok(p) => judge(tokens, p, intended, source),
                 Err(PolynomialError::InvalidNumber { num }) if num.starts_with("pipeline-drift") => Err(num.clone()),
                 Err(_) => Ok(()),
             };
@@ -671,7 +772,7 @@ struct Acc {
 }
 
 fn enum_from(alpha: &[Token], budget: usize, ts: &mut Vec<Token>, acc: &mut Acc) {
-    let (a, v) = run_tokens(ts, None);
+    let (a, v) = run_tokens(ts, None, None);
     acc.n += 1;
     if a.starts_with('U') {
         acc.ok += 1;
@@ -753,7 +854,7 @@ pub fn run(line: &str) -> Obs {
         }
         "toks" => {
             let ts = read_toks(&mut t);
-            let (a, v) = run_tokens(&ts, None);
+            let (a, v) = run_tokens(&ts, None, None);
             Obs::with(a, v)
         }
         "str" => {
@@ -766,7 +867,10 @@ pub fn run(line: &str) -> Obs {
                     Obs::with(format!("err {}", err_kind(&e)), v)
                 }
                 Some(Ok(ts)) => {
-                    let (a, mut v) = run_tokens(&ts, intended.as_ref());
+                    // the words of the source text, read by the harness itself (None: the text is outside what the
+                    // reference tokeniser decides; the lexer's own tokens are read then, as for `toks`)
+                    let source = ref_lex(&text);
+                    let (a, mut v) = run_tokens(&ts, intended.as_ref(), source.as_deref());
                     if intended.is_some() && a.starts_with("err") && v.is_ok() {
                         v = Err(format!("a well-formed expression was rejected: {a}"));
                     }
@@ -803,6 +907,10 @@ enum G {
     Fact(Box<G>),
     Bin(char, Box<G>, Box<G>), // + - * / ^
     Jux(Box<G>, Box<G>),       // number next to a variable / power / parenthesis / function
+    /// a constant in one fixed spelling (`π`, `E`, `Tau` ...)
+    Sym(&'static str, String),
+    /// a juxtaposed run `2XY`, `xY^2z`, `X2Y`, `aBc(x + 1)`: the product of its items, left to right
+    Run(Vec<G>),
 }
 
 fn gen_num(rng: &mut Rng) -> String {
@@ -868,7 +976,7 @@ fn level(g: &G) -> u32 {
     match g {
         G::Bin('+', ..) | G::Bin('-', ..) => 1,
         G::Bin('*', ..) | G::Bin('/', ..) => 2,
-        G::Jux(..) => 3,
+        G::Jux(..) | G::Run(..) => 3,
         G::Neg(..) => 4,
         G::Bin(..) => 5,
         _ => 6,
@@ -889,6 +997,23 @@ fn render_at(rng: &mut Rng, g: &G, need: u32, redundant: bool, out: &mut String)
         G::Num(s) => out.push_str(s),
         G::Var(c) => out.push(*c),
         G::Const(c) => out.push_str(&respell(rng, c, true)),
+        G::Sym(_, spelling) => out.push_str(spelling),
+        G::Run(items) => {
+            for (j, it) in items.iter().enumerate() {
+                if j > 0 && rng.chance(1, 6) {
+                    out.push(' ');
+                }
+                match it {
+                    G::Num(..) | G::Var(..) | G::Sym(..) | G::Fn(..) => render_at(rng, it, 6, false, out),
+                    G::Bin('^', ..) => render_at(rng, it, 5, false, out),
+                    _ => {
+                        out.push('(');
+                        render_at(rng, it, 0, redundant, out);
+                        out.push(')');
+                    }
+                }
+            }
+        }
         G::Fn(f, a) => {
             out.push_str(&respell(rng, f, false));
             out.push('(');
@@ -972,7 +1097,16 @@ fn intended(g: &G, out: &mut String) {
     match g {
         G::Num(s) => out.push_str(&format!("num {s} ")),
         G::Var(c) => out.push_str(&format!("var {c} ")),
-        G::Const(c) => out.push_str(&format!("const {c} ")),
+        G::Const(c) | G::Sym(c, _) => out.push_str(&format!("const {c} ")),
+        G::Run(items) => {
+            // left-associated product of the items
+            for _ in 1..items.len() {
+                out.push_str("jux ");
+            }
+            for it in items {
+                intended(it, out);
+            }
+        }
         G::Fn(f, a) => {
             out.push_str(&format!("fn {f} "));
             intended(a, out);
@@ -1096,6 +1230,7 @@ pub fn generate(seed: u64, thorough: bool, emit: &mut dyn FnMut(String)) {
         }
     }
     generate_hardening(seed, thorough, emit);
+    generate_case_family(seed, thorough, emit);
 }
 
 // ------------------------------------------------------------------ hardening families
@@ -1294,5 +1429,309 @@ fn generate_hardening(seed: u64, thorough: bool, emit: &mut dyn FnMut(String)) {
                 emit(format!("str {}", req_string(&text)));
             }
         }
+    }
+}
+
+// ------------------------------------------------------------------ hardening: case-sensitive variables in source text
+//
+// "Variables": the statement's vocabulary has single letters; nothing in it identifies `X` with `x`.  The families above
+// wrote every variable in lower case and never two letters side by side, so a lexer that folds the case of a letter inside
+// a run (`XY` read as x times y while `X` alone stays X) went through unseen by the oracle.  Here random conventional
+// trees are written with variables of both cases standing side by side (`XY`, `xY`, `aBc`, `2XY`, `X2Y`, `xY^2z`,
+// `2πX`, `XE`), next to function and constant names in every case (whose case-insensitive lookup is documented), and the
+// parsed tree is judged against the generator's own tree under case-sensitive bindings.
+
+const CASE_LETTERS: &[char] = &[
+    'x', 'y', 'X', 'Y', 'x', 'X', 'y', 'Y', 'a', 'B', 'c', 'Z', 'k', 'K', 'P', 'I', 'p', 'i', 'N', 'n', 'S', 's', 'T', 't', 'A', 'u', 'U', 'L', 'l',
+    'G', 'g', 'o', 'O', 'C', 'h', 'H', 'q', 'Q', 'w', 'M', 'z', 'b', 'D', 'r', 'V', 'j', 'F',
+];
+
+fn case_var(rng: &mut Rng) -> G {
+    G::Var(*rng.pick(CASE_LETTERS))
+}
+
+fn case_sym(rng: &mut Rng) -> G {
+    match rng.below(5) {
+        0 => G::Sym("pi", "π".into()),
+        1 => G::Sym("tau", "τ".into()),
+        2 => G::Sym("phi", "ϕ".into()),
+        3 => G::Sym("e", "e".into()),
+        _ => G::Sym("e", "E".into()),
+    }
+}
+
+fn run_num(rng: &mut Rng) -> G {
+    G::Num(match rng.below(10) {
+        0 => "0".into(),
+        1 => "1".into(),
+        2 => "2.5".into(),
+        3 => "0.5".into(),
+        4 => "10".into(),
+        _ => format!("{}", rng.range(2, 9)),
+    })
+}
+
+/// a juxtaposed run of 2..6 items obeying what may stand next to what without an operator: a number only at the start or
+/// after a letter; a function call or a parenthesis only at the end; a name of several letters never next to a letter
+fn gen_run(rng: &mut Rng, depth: u32) -> G {
+    #[derive(PartialEq, Clone, Copy)]
+    enum P {
+        Start,
+        Num,
+        Letter,
+        PowNum,
+    }
+    let want = 2 + rng.below(5) as usize;
+    let mut items: Vec<G> = Vec::new();
+    let mut prev = P::Start;
+    while items.len() < want {
+        match rng.below(12) {
+            0 | 1 if prev == P::Start || prev == P::Letter => {
+                items.push(run_num(rng));
+                prev = P::Num;
+            }
+            2..=6 => {
+                items.push(case_var(rng));
+                prev = P::Letter;
+            }
+            7 | 8 => {
+                items.push(G::Bin('^', Box::new(case_var(rng)), Box::new(G::Num(format!("{}", rng.range(2, 5))))));
+                prev = P::PowNum;
+            }
+            9 => {
+                items.push(case_sym(rng));
+                prev = P::Letter;
+            }
+            10 if prev != P::Start && items.len() + 1 >= want => {
+                // the closing item: a parenthesised expression (after anything), a function call (not after a letter)
+                if prev != P::Letter && rng.chance(1, 2) {
+                    items.push(G::Fn(*rng.pick(&["sin", "cos", "tan", "ln", "log", "cot"]), Box::new(gen_case_tree(rng, depth.saturating_sub(1)))));
+                } else {
+                    items.push(G::Bin('+', Box::new(gen_case_tree(rng, depth.saturating_sub(1))), Box::new(case_var(rng))));
+                }
+                break;
+            }
+            11 if prev == P::Num && items.len() + 1 >= want => {
+                // a constant by name, in any case, directly after the coefficient and at the end of the run: `2PI`, `3Tau`
+                items.push(G::Const(*rng.pick(&["pi", "tau", "phi"])));
+                break;
+            }
+            _ => {}
+        }
+    }
+    if items.len() == 1 {
+        return items.pop().unwrap();
+    }
+    G::Run(items)
+}
+
+fn gen_case_tree(rng: &mut Rng, depth: u32) -> G {
+    if depth == 0 || rng.chance(1, 6) {
+        return match rng.below(8) {
+            0 => G::Num(gen_num(rng)),
+            1 => G::Const(*rng.pick(&["pi", "e", "tau", "phi"])),
+            2 | 3 => gen_run(rng, 0),
+            _ => case_var(rng),
+        };
+    }
+    let sub = |rng: &mut Rng| Box::new(gen_case_tree(rng, depth - 1));
+    // the same sub-expression twice: `t op t`, `t op u op t` (a later operand exactly equal to an earlier one) - code that
+    // compares operands by VALUE where their POSITION matters only shows on such inputs
+    if rng.chance(1, 7) {
+        let t = sub(rng);
+        let op = *rng.pick(&['+', '-', '*', '/']);
+        return if rng.chance(1, 2) {
+            G::Bin(op, t.clone(), t)
+        } else {
+            let op2 = *rng.pick(&['+', '-', '*', '/']);
+            if rng.chance(1, 2) {
+                G::Bin(op2, Box::new(G::Bin(op, t.clone(), sub(rng))), t)
+            } else {
+                G::Bin(op2, t.clone(), Box::new(G::Bin(op, sub(rng), t)))
+            }
+        };
+    }
+    match rng.below(14) {
+        0 | 1 => G::Bin('+', sub(rng), sub(rng)),
+        2 | 3 => G::Bin('-', sub(rng), sub(rng)),
+        4 => G::Bin('*', sub(rng), sub(rng)),
+        5 | 6 => G::Bin('/', sub(rng), sub(rng)),
+        7 => G::Bin('^', sub(rng), Box::new(gen_case_tree(rng, depth.min(2) - 1))),
+        8 => G::Neg(sub(rng)),
+        9 => G::Fn(*rng.pick(&["sin", "cos", "tan", "ln", "log", "cot"]), sub(rng)),
+        10 => G::Fact(sub(rng)),
+        _ => gen_run(rng, depth),
+    }
+}
+
+/// the named leaves of a generated tree in writing order: `v:<letter>`, `c:<constant>`, `f:<function>`
+fn leaves(g: &G, out: &mut Vec<String>) {
+    match g {
+        G::Num(_) => {}
+        G::Var(c) => out.push(format!("v:{c}")),
+        G::Const(c) | G::Sym(c, _) => out.push(format!("c:{c}")),
+        G::Fn(f, a) => {
+            out.push(format!("f:{f}"));
+            leaves(a, out);
+        }
+        G::Neg(a) | G::Fact(a) => leaves(a, out),
+        G::Bin(_, l, r) | G::Jux(l, r) => {
+            leaves(l, out);
+            leaves(r, out);
+        }
+        G::Run(items) => items.iter().for_each(|it| leaves(it, out)),
+    }
+}
+
+/// the written text says what the tree means, word for word: the reference tokeniser finds exactly the tree's letters and
+/// names in it (a run of variables that happens to spell a name - `Pi`, `lN`, `tAU` - or a name glued to a letter is not
+/// what was meant; such a rendering is not used)
+fn faithful(text: &str, g: &G) -> bool {
+    let Some(ts) = ref_lex(text) else { return false };
+    let found: Vec<String> = ts
+        .iter()
+        .filter_map(|t| match t {
+            Token::Variable(v) => Some(format!("v:{v}")),
+            Token::Constant(c) => Some(format!("c:{}", const_name(c))),
+            Token::Function(f) => Some(format!("f:{}", fn_name(f))),
+            _ => None,
+        })
+        .collect();
+    let mut meant = Vec::new();
+    leaves(g, &mut meant);
+    found == meant
+}
+
+fn generate_case_family(seed: u64, thorough: bool, emit: &mut dyn FnMut(String)) {
+    let mut rng = Rng::new(seed ^ 0xC19_CA5E);
+    // ---- (6) random trees with variables of both cases side by side, against the generator's own tree
+    let n = if thorough { 60_000 } else { 3000 };
+    let mut made = 0;
+    while made < n {
+        let depth = 1 + rng.below(5) as u32;
+        let g = if rng.chance(1, 3) { gen_run(&mut rng, depth) } else { gen_case_tree(&mut rng, depth) };
+        let mut text = String::new();
+        render_at(&mut rng, &g, 0, made % 3 == 1, &mut text);
+        if !faithful(&text, &g) {
+            continue;
+        }
+        let mut want = String::new();
+        intended(&g, &mut want);
+        emit(format!("str {} | {}", req_string(&text), want.trim_end()));
+        made += 1;
+    }
+    // ---- (7) every ordered pair of letters of either case side by side (52 x 52 in the thorough tier, a sample in the quick
+    //      one), alone and inside the shapes a run occurs in; read by the reference tokeniser (no generator tree: pairs
+    //      that spell `pi` or `ln` are those names)
+    let l52: Vec<char> = ('a'..='z').chain('A'..='Z').collect();
+    let mut pairs: Vec<(char, char)> = Vec::new();
+    if thorough {
+        for a in &l52 {
+            for b in &l52 {
+                pairs.push((*a, *b));
+            }
+        }
+    } else {
+        for a in &l52 {
+            // the same letter in the other case, a fixed partner of each case, a random partner
+            pairs.push((*a, char::from_u32(*a as u32 ^ 0x20).unwrap()));
+            pairs.push((*a, 'Y'));
+            pairs.push(('X', *a));
+            pairs.push((*a, *rng.pick(&l52)));
+        }
+    }
+    for (j, (a, b)) in pairs.iter().enumerate() {
+        let shapes = [
+            format!("{a}{b}"),
+            format!("2{a}{b}"),
+            format!("{a}2{b}"),
+            format!("4{a}{b} - {a}^2"),
+            format!("{a}{b}^2 + {b}{a}"),
+            format!("{a} {b}"),
+            format!("1/{a}{b}"),
+            format!("-{a}{b}x"),
+            format!("sin({a}{b})"),
+            format!("({a}{b})^2"),
+            format!("{a}{b}!"),
+            format!("x{a}{b}y"),
+            format!("{a}{b}{a}"),
+            format!("{a}π{b}"),
+            format!("{a}{b}(x + 1)"),
+            format!("{b}^{a}{b}"),
+        ];
+        if thorough {
+            for t in shapes {
+                emit(format!("str {}", req_string(&t)));
+            }
+        } else {
+            // four of the sixteen shapes per pair, every shape once per four pairs
+            for t in shapes.iter().skip(j % 4).step_by(4) {
+                emit(format!("str {}", req_string(t)));
+            }
+        }
+    }
+    // ---- (8) runs of three to six letters of mixed case, and names in every case pattern glued to letters, digits, symbols
+    for text in [
+        "XY", "xY", "Xy", "aBc", "AbC", "2XY", "X2Y", "XY2", "4XY - X^2", "XYZ + xyz", "xX", "Xx", "XxX", "xXx^2", "Xx^2 - xX^2", "-XY", "1/XY", "XY/xy",
+        "X^2Y", "XY^2", "X^2Y^2", "x^2Y^3x", "2X^2Y", "sin(XY)", "SIN(XY)", "Sin(xY)cos", "2Xsin(Y)", "X2sin(Y)", "XE", "EX", "Ex", "eX", "xEy", "XEY", "EE",
+        "2EX", "PIX", "XPI", "xPi", "piX", "Pix", "2PI", "2Pi", "2pI", "2PI(X)", "PI(X)", "PI X", "P I", "Pi^2", "pI^X", "TAUX", "XTAU", "Tau", "tAU", "2tAu",
+        "PHI", "Phi", "pHi", "PHIX", "XπY", "πXY", "XYπ", "2πXY", "τX", "Xτ", "ϕXϕ", "LN(X)", "Ln(X)", "lN(X)", "LNX", "XLN(X)", "LOG(XY)", "LogX", "COT(X)Y",
+        "Tan(X) * Y", "X Y", "X Y Z", "2 X Y", "X  Y", "X ^ 2 Y", "XY!", "(XY)!", "X!Y", "X! * Y", "XY + YX", "XY - YX", "XY - xy", "Xy - xY", "(X + x)(Y + y)",
+        "X(Y)", "X(y)Z", "2X(Y + y)", "XY(X + Y)", "A + B + C + a + b + c", "ABC - abc", "aA + bB", "IJ", "Ij", "iJ", "IN", "In", "iN", "NaN", "Inf", "INF", "iNf",
+    ] {
+        emit(format!("str {}", req_string(text)));
+        emit(format!("lex {}", req_string(text)));
+    }
+    // ---- (9) token sequences with variables of both cases and repeated variables through the parser, the folder and the
+    //      printer (the displayed text must read back to the same function under case-sensitive bindings)
+    let pool: Vec<Token> = {
+        let mut v: Vec<Token> = ["X", "Y", "x", "y", "X", "x", "A", "a", "P", "I", "n", "S"].iter().map(|s| Token::Variable(s.to_string())).collect();
+        v.extend([Token::Number(2.0), Token::Number(0.0), Token::Number(1.0), Token::Number(2.5), Token::Constant(Constants::Pi), Token::Constant(Constants::E)]);
+        v.extend([Token::LParen, Token::RParen, Token::RParen, Token::Function(Functions::Sin), Token::Function(Functions::Ln)]);
+        for o in [Operators::Add, Operators::Sub, Operators::Sub, Operators::Mul, Operators::Mul, Operators::Div, Operators::Div, Operators::Caret, Operators::Fac] {
+            v.push(Token::Operator(o));
+        }
+        v
+    };
+    let k = if thorough { 60_000 } else { 4000 };
+    for _ in 0..k {
+        let len = 2 + rng.below(9) as usize;
+        let mut ts: Vec<Token> = Vec::with_capacity(len + 4);
+        let mut open = 0usize;
+        while ts.len() < len {
+            let j = ts.len();
+            let t = rng.pick(&pool).clone();
+            let starts = matches!(t, Token::Number(_) | Token::Variable(_) | Token::Constant(_) | Token::LParen | Token::Function(_) | Token::Operator(Operators::Sub));
+            let prev_operand = j > 0 && matches!(ts[j - 1], Token::Number(_) | Token::Variable(_) | Token::Constant(_) | Token::RParen | Token::Operator(Operators::Fac));
+            if j == 0 && !starts {
+                continue;
+            }
+            // juxtaposition (operand after operand) one time in three here: runs of variables are the point
+            if j > 0 && rng.chance(2, 3) && prev_operand == starts && !matches!(t, Token::Operator(Operators::Fac)) {
+                continue;
+            }
+            if matches!(t, Token::RParen) && (open == 0 || !prev_operand) {
+                continue;
+            }
+            match &t {
+                Token::LParen => open += 1,
+                Token::RParen => open -= 1,
+                _ => {}
+            }
+            let is_fn = matches!(t, Token::Function(_));
+            ts.push(t);
+            if is_fn {
+                ts.push(Token::LParen);
+                open += 1;
+            }
+        }
+        let prev_operand = matches!(ts[ts.len() - 1], Token::Number(_) | Token::Variable(_) | Token::Constant(_) | Token::RParen | Token::Operator(Operators::Fac));
+        if !prev_operand {
+            ts.push(rng.pick(&[Token::Variable("X".into()), Token::Variable("x".into()), Token::Number(2.0)]).clone());
+        }
+        for _ in 0..open {
+            ts.push(Token::RParen);
+        }
+        emit(format!("toks {}", words(&ts)));
     }
 }
